@@ -1,5 +1,5 @@
 """C07 — program-level three-way comparison (Go interpreter, Lean model evaluator, Lean spec semantics)."""
-from props import progs
+from props import progs, sites
 from props.progs import replay  # noqa
 
 GEN = 'copy'
@@ -23,6 +23,7 @@ PARTIAL = "spec semantics treats lists/dictionaries as values; programs that dep
 
 
 def run(ctx):
+    sites.report(ctx)   # regenerated site inventory vs the modelled sites (diagnosis of a broken obligation; DESIGN §12)
     g = progs.G(ctx.rng)
     n = ctx.n(1250, 36000)
     ps = [g.copy_program(ctx.rng.randint(4, 14 if ctx.quick() else 40)) for _ in range(n)]
